@@ -164,6 +164,7 @@ type context struct {
 	skips       map[string]none
 	loaded      map[*types.Package]*pkgInfo // loaded packages
 	bvals       map[ssa.Value]llssa.Expr    // block values
+	loadCopies  map[*ssa.UnOp]llssa.Expr    // array loads kept in a temporary for later Index instructions
 	vargs       map[*ssa.Alloc][]llssa.Expr // varargs
 	funcs       map[*ssa.Function]llssa.Function
 	stackDefers map[*ssa.Function]bool
@@ -448,6 +449,7 @@ func (p *context) compileFuncDecl(pkg llssa.Package, f *ssa.Function) (llssa.Fun
 				b.DebugFunction(fn, pos, bodyPos)
 			}
 			p.bvals = make(map[ssa.Value]llssa.Expr)
+			p.loadCopies = nil
 			off := make([]int, len(f.Blocks))
 			if isCgo {
 				p.cgoArgs = make([]llssa.Expr, len(f.Params))
@@ -677,6 +679,58 @@ func intVal(v ssa.Value) int64 {
 	panic("intVal: ssa.Value is not a const int")
 }
 
+// loadStillCurrent reports whether the memory read by load cannot have been
+// written before instruction at: both are in one block and only instructions
+// that do not write memory lie between them.
+func loadStillCurrent(load *ssa.UnOp, at ssa.Instruction) bool {
+	blk := load.Block()
+	if blk == nil || blk != at.Block() {
+		return false
+	}
+	after := false
+	for _, instr := range blk.Instrs {
+		if instr == ssa.Instruction(load) {
+			after = true
+			continue
+		}
+		if !after {
+			continue
+		}
+		if instr == at {
+			return true
+		}
+		switch i := instr.(type) {
+		case *ssa.UnOp:
+			if i.Op == token.ARROW {
+				return false
+			}
+		case *ssa.BinOp, *ssa.Index, *ssa.IndexAddr, *ssa.Field, *ssa.FieldAddr,
+			*ssa.Convert, *ssa.ChangeType, *ssa.Extract, *ssa.DebugRef:
+		default:
+			return false
+		}
+	}
+	return false
+}
+
+// indexedAfterWrite reports whether an array value loaded by v is indexed at
+// a point where the memory it was loaded from may have changed.
+func indexedAfterWrite(v *ssa.UnOp) bool {
+	if _, ok := v.Type().Underlying().(*types.Array); !ok {
+		return false
+	}
+	refs := v.Referrers()
+	if refs == nil {
+		return false
+	}
+	for _, ref := range *refs {
+		if idx, ok := ref.(*ssa.Index); ok && idx.X == ssa.Value(v) && !loadStillCurrent(v, idx) {
+			return true
+		}
+	}
+	return false
+}
+
 func skipUnusedArrayDeref(v *ssa.UnOp) bool {
 	if v.Op != token.MUL {
 		return false
@@ -888,6 +942,16 @@ func (p *context) compileInstrOrValue(b llssa.Builder, iv instrOrValue, asValue 
 			ret = b.Recv(x, v.CommaOk)
 		} else {
 			ret = b.UnOp(v.Op, x)
+			if v.Op == token.MUL && indexedAfterWrite(v) {
+				// An Index of this array value must see the elements as they
+				// are now (e.g. the copy a range loop iterates over).
+				tmp := b.AllocaTAtEntry(p.type_(v.Type(), llssa.InGo))
+				b.Store(tmp, ret)
+				if p.loadCopies == nil {
+					p.loadCopies = make(map[*ssa.UnOp]llssa.Expr)
+				}
+				p.loadCopies[v] = tmp
+			}
 		}
 	case *ssa.ChangeType:
 		t := v.Type()
@@ -923,7 +987,11 @@ func (p *context) compileInstrOrValue(b llssa.Builder, iv instrOrValue, asValue 
 			case *ssa.Const:
 				zero = true
 			case *ssa.UnOp:
-				addr = p.compileValue(b, n.X)
+				if tmp, ok := p.loadCopies[n]; ok {
+					addr = tmp
+				} else if n.Op == token.MUL && loadStillCurrent(n, v) {
+					addr = p.compileValue(b, n.X)
+				}
 			}
 			return
 		})
